@@ -415,3 +415,21 @@ Proof.
   cbv zeta in H. apply Z.eqb_eq in H.
   split; [lia|]. split; [lia|]. exact H.
 Qed.
+
+(* ---- Checker and resumed connections ------------------------------------------------------------ *)
+Lemma wrapper_r_checked hs cl w fp resumed chk s :
+  (resumed = false \/ chk = true) ->
+  wrapper_r hs cl (Some w) fp resumed chk = Ok s ->
+  hs = Ok s /\ exists c, (if cl then s_server_chain s else s_client_chain s) = Some c /\ fp c = w.
+Proof.
+  unfold wrapper_r. intros [-> | ->] H.
+  - cbn [andb] in H. apply wrapper_accepts. exact H.
+  - rewrite andb_false_r in H. apply wrapper_accepts. exact H.
+Qed.
+
+Lemma wrapper_r_bypass_witness :
+  exists s c w, wrapper_r (Ok s) false (Some w) (fun x => x) true false = Ok s /\
+                s_client_chain s = Some c /\ c <> w.
+Proof.
+  exists session_w3, [9], [21]. split; [reflexivity|]. split; [reflexivity|]. discriminate.
+Qed.
